@@ -9,7 +9,12 @@ SITES = ["accepted", "alg-mismatch", "alg-not-allowed", "signature", "assert-iss
 
 
 def site_coverage():
-    path = os.path.join(os.path.dirname(os.path.dirname(os.path.abspath(__file__))), "out", "C05", "obs_tokens.jsonl")
+    try:
+        import vf
+        out = vf.OUT
+    except Exception:
+        out = os.path.join(os.path.dirname(os.path.dirname(os.path.abspath(__file__))), "out")
+    path = os.path.join(out, "C05", "obs_tokens.jsonl")
     hits = {s: 0 for s in SITES}
     nokid_accepted = merged = 0
     try:
@@ -43,7 +48,8 @@ P = {
                  "C05_unsigned_rejected", "C05_modified_or_foreign_token_rejected", "C05_alg_confusion_rejected",
                  "C05_default_algorithms", "C05_merge_precedence", "C05_no_nil_matcher", "C05_exact_scopes",
                  "C05_hierarchic_scopes", "C05_wildcard_scopes", "C05_nonvacuous",
-                 "C05_cache_history_stateless", "C05_cache_history_spec", "C05_cache_transparent", "C05_cache_examples"],
+                 "C05_cache_history_stateless", "C05_judged_statelessly_unfold", "C05_cache_history_spec", "C05_F4_refuted",
+                 "C05_cache_fixed_history_spec", "C05_cache_transparent", "C05_cache_examples"],
     "streams": [{
         "name": "tokens", "pkg": "./internal/rules/mechanisms/authenticators", "test": "TestVerifC05",
         "overlay": {"internal/rules/mechanisms/authenticators/zz_verif_c05_test.go": "c05/c05_test.go"},
@@ -52,8 +58,8 @@ P = {
     }, {
         "name": "keycache", "pkg": "./internal/rules/mechanisms/authenticators", "test": "TestVerifC05Cache",
         "overlay": {"internal/rules/mechanisms/authenticators/zz_verif_c05_test.go": "c05/c05_test.go"},
-        "eval_module": "Run.Eval_C05", "check_term": "check_hist true true",
-        "n_quick": 500, "n_thorough": 12000, "findings": {1: "C05-F1", 2: "C05-F2", 3: "C05-F3"}, "shard": 150,
+        "eval_module": "Run.Eval_C05", "check_term": "check_hist true true false",
+        "n_quick": 500, "n_thorough": 12000, "findings": {1: "C05-F1", 2: "C05-F2", 3: "C05-F3", 4: "C05-F4"}, "shard": 150,
     }],
     "rule": "a jwt authenticator created by the real type registry from a generated configuration (issuers, audience, scopes "
             "with exact/hierarchic/wildcard strategy, allowed_algorithms, validity_leeway incl. sub-second and negative, "
